@@ -41,7 +41,7 @@ type Options struct {
 	Backend           string // "memory" (default), "leveldb", "pebble" -- zone chain database
 	Dir               string // directory for on-disk back-ends
 	ZoneDB            ethdb.Database // if set, used as the zone database (already containing a chain, or empty)
-	WrapZoneDB        func(ethdb.Database) ethdb.Database
+	WrapZoneDB        func(ethdb.Database) ethdb.Database // applied to the zone database (also on RestartZone)
 	GenesisDifficulty int64
 	QuaiCoinbase      common.Address
 	QiCoinbase        common.Address
@@ -287,6 +287,10 @@ func RoundTrip(b *types.WorkObject, loc common.Location) (*types.WorkObject, err
 	return out, nil
 }
 
+// Refill regenerates the zone's pending block from the transaction pool (what the worker's one-second
+// ticker does in production), synchronously.
+func (n *Net) Refill() error { return n.Cores[Zone].Slice().VerifRefillPendingHeader() }
+
 // Pending returns the zone's current full pending header (a copy).
 func (n *Net) Pending() (*types.WorkObject, error) {
 	if n.Cores[Zone].Slice().ReadBestPh() == nil {
@@ -361,7 +365,8 @@ func (n *Net) Insert(m *Mined) error {
 	}
 	_, err := n.Cores[m.Order].InsertChain(types.WorkObjects{m.Blocks[m.Order]})
 	if err != nil {
-		return err
+		_, aerr := n.Cores[m.Order].Slice().Append(m.Blocks[m.Order], common.Hash{}, false, nil)
+		return fmt.Errorf("%w (Append: %v)", err, aerr)
 	}
 	if n.Cores[Zone].GetHeaderByHash(m.Hash) == nil {
 		// InsertChain swallows the reason; ask Append directly for it
@@ -429,4 +434,36 @@ func (n *Net) MineOne(wantOrder int) (*Mined, error) {
 		return m, fmt.Errorf("advance: %w", err)
 	}
 	return m, nil
+}
+
+
+// RestartZone simulates a process restart of the zone node on the given database image: the old core
+// is abandoned (a crashed process runs no shutdown code), a new core.Core is constructed on db and
+// wired to the (still running) region.
+func (n *Net) RestartZone(db ethdb.Database) error {
+	old := n.Cores[Zone]
+	go func() {
+		defer func() { recover() }()
+		old.Stop()
+	}()
+	if n.Opt.WrapZoneDB != nil {
+		db = n.Opt.WrapZoneDB(db)
+	}
+	n.DBs[Zone] = db
+	var c *core.Core
+	var err error
+	func() {
+		defer func() {
+			if r := recover(); r != nil {
+				err = fmt.Errorf("panic while constructing the zone core: %v", r)
+			}
+		}()
+		c, err = n.coreOn(Zone, ZoneLoc, db)
+	}()
+	if err != nil {
+		return err
+	}
+	n.Cores[Zone] = c
+	n.wire()
+	return nil
 }
